@@ -66,7 +66,7 @@ pub fn adss(tier: &str, seed: u64) {
   let mut g = Sm::new(seed, "adss");
   let n = if quick(tier) { 40 } else { 700 };
   for case in 0..n {
-    let t = if case % 9 == 0 { 0 } else { gen_threshold(&mut g, tier) };
+    let t = if case % 9 == 0 { 0 } else if case % 13 == 5 { *g.pick(&[255u32, 256, 257]) } else if !quick(tier) && case % 97 == 11 { *g.pick(&[65535u32, 65536, 65537]) } else { gen_threshold(&mut g, tier) };
     let big = !quick(tier) && case % 50 == 7;
     let m = { let n = if big { 100_000 } else { gen_len(&mut g, 400) }; g.blob(n) };
     let r = { let n = gen_len(&mut g, 400); g.blob(n) };
@@ -78,7 +78,7 @@ pub fn adss(tier: &str, seed: u64) {
       (None, "-".to_string())
     };
     let c = Commune::new(t, m.clone(), r.clone(), tr);
-    let cnt = g.range(1, (t as u64 + 2).min(if quick(tier) { 8 } else { 30 })) as usize;
+    let cnt = if t > 200 { 1 } else { g.range(1, (t as u64 + 2).min(if quick(tier) { 8 } else { 30 })) as usize };
     let mut shares = Vec::new();
     for _ in 0..cnt {
       let sh = c.clone().share().expect("share");
@@ -220,8 +220,8 @@ pub fn star(tier: &str, seed: u64) {
   let n = if quick(tier) { 30 } else { 500 };
   for case in 0..n {
     let t = gen_threshold(&mut g, tier);
-    let m = { let n = if case % 10 == 3 { 4096 } else { gen_len(&mut g, 400) }; g.blob(n) };
-    let e = { let n = if g.chance(1, 4) { 0 } else { g.range(1, 12) as usize }; g.blob(n) };
+    let m = { let n = if case % 10 == 3 { 4096 } else if case % 10 == 7 { *g.pick(&[255usize, 256, 257, 65535, 65536, 65537]) } else { gen_len(&mut g, 400) }; g.blob(n) };
+    let e = { let n = if g.chance(1, 4) { 0 } else if case % 17 == 2 { *g.pick(&[255usize, 256, 300]) } else { g.range(1, 12) as usize }; g.blob(n) };
     let mg = MessageGenerator::new(SingleMeasurement::new(&m), t, &e);
     let mut rnd = [0u8; 32];
     mg.sample_local_randomness(&mut rnd);
